@@ -89,3 +89,32 @@ Example C06_dispatch_example :
   first_setup Passive true = [EPSV_] /\ first_setup Passive false = [PASV_] /\
   first_setup Active true = [EPRT_] /\ first_setup Active false = [PORT_].
 Proof. exact dispatch_example. Qed.
+
+(* ---- where data connections go, over every call, every state, every server (Endpoint_Global.v) ---- *)
+From LibFtp Require Endpoint_Global.
+
+(* what a call adds to the trace opens a data connection only towards the endpoint named by the reply the call read last: a
+   positive reply in which the 229 parser finds exactly that port (no address: the control connection's peer) or the 227
+   parser exactly that address and port *)
+Theorem C06_connects_where_the_reply_says : forall a w,
+  exists tr, w_trace (snd (step w a)) = w_trace w ++ tr /\ Endpoint_Global.okhs None tr.
+Proof. exact Endpoint_Global.step_connects_where_the_reply_says. Qed.
+Print Assumptions C06_connects_where_the_reply_says.
+
+Theorem C06_connect_follows_the_reply_naming_it : forall a w tr pre ip port ok post,
+  w_trace (snd (step w a)) = w_trace w ++ tr -> tr = pre ++ EData (DConnectTo ip port ok) :: post ->
+  exists r, Endpoint_Global.hsafter None pre = Some r /\
+    is_negative r = false /\
+    match ip with
+    | None => try_parse_epsv_reply (text r) = Some port
+    | Some a => try_parse_pasv_reply (text r) = Some (a, port)
+    end.
+Proof. exact Endpoint_Global.connect_follows_the_reply_naming_it. Qed.
+Print Assumptions C06_connect_follows_the_reply_naming_it.
+
+Example C06_example_connects_where_the_227_says :
+  let w0 := init_world (mkConfig Passive false TBinary false false) Endpoint_Global.endpoint_script in
+  let tr := w_trace (snd (steps w0 [AConnect [104] 21 None; ADownload [102] None None])) in
+  filter (fun e => match e with EData (DConnectTo _ _ _) => true | _ => false end) tr
+    = [EData (DConnectTo (Some [49;48;46;49;46;50;46;51]) 1029 true)].
+Proof. exact Endpoint_Global.endpoint_example. Qed.
